@@ -292,6 +292,17 @@ def check_c09(pid, tier, seed, rep):
     for r in N["records"]:
         if r["meta"].get("expect_accept"):
             ndir += 1
+            if r["gen_rc"] == 0:
+                # accepted means: exit 0 AND exactly one function per declaration (a declaration dropped with a warning
+                # also exits 0)
+                for band, names in (r["meta"].get("expect_funcs") or {}).items():
+                    txt = (r.get("band") or {}).get(band)
+                    got = re.findall(r"^func (\w+)\(", txt or "", re.M)
+                    if got != names:
+                        nviol += 1
+                        rep.violation("directed-%s" % r["name"], dict(package_dir=os.path.join(N["srcdir"], r["dir"]), kind=r["meta"]["kind"], declared=names, generated=got, output_written=txt is not None,
+                                                                       how="cd <package_dir> && kessoku k.go"),
+                                      "%s (%s): exit 0, but the output %s; declared: %s" % (r["name"], r["meta"]["kind"], ("declares " + str(got)) if txt is not None else "was not written", names))
             if r["gen_rc"] != 0:
                 nviol += 1
                 rep.violation("directed-%s" % r["name"], dict(package_dir=os.path.join(N["srcdir"], r["dir"]), kind=r["meta"]["kind"], exit=r["gen_rc"], stderr=r["gen_err"], how="cd <package_dir> && kessoku k.go"),
